@@ -16,7 +16,7 @@ RULES = {
          "JSON round trips of ChemicalCompositionVec, ChemicalCompositionMap and ElementSpecification; class = (form, "
          "size, has isotopes, outcome)"),
 }
-MODULES = ["Props.C05", "Props.C05Sound", "Props.C05Rejects", "Lemmas.Sound", "Inst.C05", "Inst.Variant"]
+MODULES = ["Props.C05", "Props.C05Sound", "Props.C05Rejects", "Lemmas.Sound", "Inst.C05", "Inst.Variant", "Props.C05Named", "Inst.C05Named"]
 
 
 def run(r: Run):
